@@ -4,8 +4,8 @@
 //   harness <request-file> <first-line-index> [<budget-ms> [<end-line-index>]]
 //
 // One request per line, byte strings hex-encoded (`-` = empty); one answer per line in the format
-// of lean/TfelVerif/C32/Driver.lean.  Every call runs under a watchdog (periodic ITIMER_REAL tick): if
-// it has not returned after the budget (~400 ms) the answers so far are flushed, `timeout` is printed for the
+// of lean/TfelVerif/C32/Driver.lean.  Every call runs under a watchdog (periodic ITIMER_PROF tick, i.e.
+// CPU time of this process): if it has not returned after the budget (~400 ms of CPU) the answers so far are flushed, `timeout` is printed for the
 // current request and the process exits with status 3; the check restarts it after that request.
 // A sanitizer report flushes the answers, prints `crash` and dies (non-zero status).
 #include <csignal>
@@ -48,7 +48,8 @@ namespace {
     }
     out.clear();
   }
-  // watchdog: a periodic tick; a call that is still the current one after `budget` ms is a hang
+  // watchdog: a periodic tick of consumed CPU time; a call that is still the current one after
+  // `budget` ms of CPU is a hang (a hung call spins, so CPU time advances)
   volatile sig_atomic_t in_call = 0;
   volatile sig_atomic_t call_seq = 0;
   volatile sig_atomic_t seen_seq = -1;
@@ -94,11 +95,11 @@ namespace {
     struct sigaction sa {};
     sa.sa_handler = on_alarm;
     sa.sa_flags = SA_RESTART;
-    ::sigaction(SIGALRM, &sa, nullptr);
+    ::sigaction(SIGPROF, &sa, nullptr);
     itimerval t{};
     t.it_value.tv_usec = tick_ms * 1000;
     t.it_interval.tv_usec = tick_ms * 1000;
-    ::setitimer(ITIMER_REAL, &t, nullptr);
+    ::setitimer(ITIMER_PROF, &t, nullptr);  // CPU time of this process: immune to machine load
   }
 
   int hv(const char c) {
